@@ -1,5 +1,5 @@
 (* Lemmas about Model/Reasm.v (property C12, receiver side), on top of the C15 lemmas. *)
-From SV Require Import Lib.Base Model.Assembler Proofs.AssemblerProofs Model.Frag4 Proofs.Frag4Proofs Model.Reasm.
+From SV Require Import Lib.Base Gen.Consts Model.Assembler Proofs.AssemblerProofs Model.Frag4 Proofs.Frag4Proofs Model.Reasm.
 
 (* ---------- bytes of buffers ---------- *)
 
@@ -367,3 +367,501 @@ Lemma c12_reassembly_exact_or_nothing k P n timeout slots arr :
   Forall2 (fun tf r => fi_key (snd tf) = k -> r = None \/ r = Some P)
           arr (snd (rs_run n timeout (pas_new slots) arr)).
 Proof. apply run_safe. apply set_ok_new. Qed.
+
+(* ================= delivery when the gaps fit ================= *)
+
+Definition covers (f : frag_in) (x : Z) : Prop :=
+  fi_offset f <= x < fi_offset f + zlen (fi_payload f).
+
+(* along the arrival order, the merged union of the ranges received under key [k] (starting
+   from [u]) never needs more than [n] ranges -- [asm_add_unb] is the canonical merged union
+   (C15: add_unb_spec, canon_unique) *)
+Fixpoint gaps_fit (n : Z) (k : fkey) (u : asm) (arr : list (Z * frag_in)) : Prop :=
+  match arr with
+  | [] => True
+  | (_, f) :: rest =>
+      if fkey_eqb (fi_key f) k then
+        let u' := asm_add_unb u (fi_offset f) (zlen (fi_payload f)) in
+        Z.of_nat (length u') <= n /\ gaps_fit n k u' rest
+      else gaps_fit n k u rest
+  end.
+
+(* exactly one slot, number [i], is claimed for [k] *)
+Definition unique_kslot (k : fkey) (s : paset) (i : nat) : Prop :=
+  (i < length s)%nat /\ pa_key (nth i s pa_new) = Some k /\
+  forall j, (j < length s)%nat -> pa_key (nth j s pa_new) = Some k -> j = i.
+
+(* the slot of [k] holds the accumulated tracker [u] and total [tot], expires at [texp], and is
+   not complete (otherwise assemble would have delivered) *)
+Definition kstate (k : fkey) (P : list Z) (texp : Z) (s : paset) (u : asm) (tot : option Z) : Prop :=
+  set_ok k P s /\
+  exists i, unique_kslot k s i /\
+    pa_asm (nth i s pa_new) = u /\ pa_total (nth i s pa_new) = tot /\
+    pa_expires (nth i s pa_new) = texp /\ pa_is_complete (nth i s pa_new) = false.
+
+Lemma pas_find_key k : forall s i0 e i,
+  (i < length s)%nat -> pa_key (nth i s pa_new) = Some k ->
+  (forall j, (j < i)%nat -> pa_key (nth j s pa_new) <> Some k) ->
+  pas_find k s i0 e = Some (i0 + i)%nat.
+Proof.
+  induction s as [|p s IH]; intros i0 e i Hi Hk Hbefore; cbn [length] in Hi; [lia|].
+  cbn [pas_find]. destruct i as [|i].
+  - cbn [nth] in Hk. apply has_key_iff in Hk. rewrite Hk. f_equal. lia.
+  - assert (Hp : pa_has_key k p = false).
+    { destruct (pa_has_key k p) eqn:H; [|reflexivity]. apply has_key_iff in H.
+      exfalso. apply (Hbefore O); [lia | exact H]. }
+    rewrite Hp. rewrite (IH (S i0) _ i); [f_equal; lia | lia | exact Hk|].
+    intros j Hj. apply (Hbefore (S j)). lia.
+Qed.
+
+Lemma pas_find_not_none k : forall s i0 e,
+  (e <> None \/ exists j, (j < length s)%nat /\
+     (pa_key (nth j s pa_new) = None \/ pa_key (nth j s pa_new) = Some k)) ->
+  pas_find k s i0 e <> None.
+Proof.
+  induction s as [|p s IH]; intros i0 e H; cbn [pas_find].
+  - destruct H as [H | (j & Hj & _)]; [exact H | cbn in Hj; lia].
+  - destruct (pa_has_key k p) eqn:Hk; [discriminate|].
+    apply IH. destruct H as [H | (j & Hj & Hkey)].
+    + left. destruct (pa_is_free p); [discriminate | exact H].
+    + destruct j as [|j].
+      * cbn [nth] in Hkey. destruct Hkey as [Hkey | Hkey].
+        -- left. apply is_free_iff in Hkey. rewrite Hkey. discriminate.
+        -- apply has_key_iff in Hkey. congruence.
+      * right. exists j. split; [cbn [length] in Hj; lia | exact Hkey].
+Qed.
+
+Lemma get_found k s exp i : unique_kslot k s i -> pas_get s k exp = Some (i, s).
+Proof.
+  intros (Hi & Hk & Hu). unfold pas_get.
+  rewrite (pas_find_key k s 0 None i Hi Hk).
+  - cbn [Nat.add]. apply has_key_iff in Hk. rewrite Hk. reflexivity.
+  - intros j Hj H. specialize (Hu j ltac:(lia) H). lia.
+Qed.
+
+Lemma get_alloc k s exp :
+  (forall j, (j < length s)%nat -> pa_key (nth j s pa_new) <> Some k) ->
+  (exists j, (j < length s)%nat /\ pa_key (nth j s pa_new) = None) ->
+  exists i, (i < length s)%nat /\ pa_key (nth i s pa_new) = None /\
+    pas_get s k exp = Some (i, pas_update s i
+       (mkPa (Some k) (pa_buffer (nth i s pa_new)) (pa_asm (nth i s pa_new)) (pa_total (nth i s pa_new)) exp)).
+Proof.
+  intros Hnok (j & Hj & Hfree).
+  destruct (pas_get s k exp) as [(i, s1)|] eqn:Hget.
+  - destruct (pas_get_spec _ _ _ _ _ Hget) as (Hi & [(Hk & _) | (Hk & Hs1)]).
+    + exfalso. exact (Hnok i Hi Hk).
+    + exists i. split; [exact Hi|]. split; [exact Hk|]. rewrite Hs1. reflexivity.
+  - exfalso. unfold pas_get in Hget.
+    destruct (pas_find k s 0 None) eqn:Hf.
+    + destruct (pa_has_key k (nth n s pa_new)); discriminate.
+    + revert Hf. apply pas_find_not_none. right. exists j. split; [exact Hj | left; exact Hfree].
+Qed.
+
+Lemma unique_update_same k s i p :
+  unique_kslot k s i -> pa_key p = Some k -> unique_kslot k (pas_update s i p) i.
+Proof.
+  intros (Hi & Hk & Hu) Hp. unfold unique_kslot. rewrite update_length.
+  split; [exact Hi|]. split; [rewrite update_nth by exact Hi; exact Hp|].
+  intros j Hj Hkj. destruct (Nat.eq_dec j i) as [-> | Hne]; [reflexivity|].
+  rewrite update_nth_other in Hkj by congruence. apply Hu; assumption.
+Qed.
+
+Lemma unique_update_other k s i j p :
+  unique_kslot k s i -> j <> i -> pa_key p <> Some k -> unique_kslot k (pas_update s j p) i.
+Proof.
+  intros (Hi & Hk & Hu) Hne Hp. unfold unique_kslot. rewrite update_length.
+  split; [exact Hi|]. split; [rewrite update_nth_other by exact Hne; exact Hk|].
+  intros j' Hj' Hkj. destruct (Nat.eq_dec j' j) as [-> | Hne'].
+  - destruct (Nat.lt_ge_cases j (length s)) as [Hlt | Hge]; [|lia].
+    rewrite update_nth in Hkj by exact Hlt. congruence.
+  - rewrite update_nth_other in Hkj by congruence. apply Hu; assumption.
+Qed.
+
+Lemma remove_expired_nth s t i :
+  nth i (pas_remove_expired s t) pa_new =
+  (fun p => if negb (pa_is_free p) && (pa_expires p <? t) then pa_reset p else p) (nth i s pa_new).
+Proof.
+  unfold pas_remove_expired.
+  change pa_new with ((fun p => if negb (pa_is_free p) && (pa_expires p <? t) then pa_reset p else p) pa_new) at 1.
+  apply map_nth.
+Qed.
+
+Lemma kstate_remove_expired k P texp s u tot t :
+  kstate k P texp s u tot -> t <= texp -> kstate k P texp (pas_remove_expired s t) u tot.
+Proof.
+  intros (Hs & i & (Hi & Hk & Hu) & Ha & Ht & He & Hc) Hle.
+  split; [apply remove_expired_ok; exact Hs|].
+  assert (Hsame : nth i (pas_remove_expired s t) pa_new = nth i s pa_new).
+  { rewrite remove_expired_nth. cbv beta. replace (pa_expires (nth i s pa_new) <? t) with false by lia.
+    rewrite andb_false_r. reflexivity. }
+  exists i. unfold unique_kslot. unfold pas_remove_expired at 1. rewrite map_length.
+  rewrite Hsame. repeat split; try assumption.
+  intros j Hj Hkj. apply Hu; [unfold pas_remove_expired in Hj; rewrite map_length in Hj; exact Hj|].
+  rewrite remove_expired_nth in Hkj. cbv beta in Hkj.
+  destruct (negb (pa_is_free (nth j s pa_new)) && (pa_expires (nth j s pa_new) <? t)); [discriminate | exact Hkj].
+Qed.
+
+Lemma full_cover_complete P u :
+  0 < zlen P -> asm_wf u ->
+  (forall x, amem 0 u x -> x < zlen P) -> (forall x, 0 <= x < zlen P -> amem 0 u x) ->
+  asm_peek_front u = zlen P.
+Proof.
+  intros HP Hwf Hub Hcov.
+  assert (u = [mkContig 0 (zlen P)]).
+  { apply canon_unique; [exact Hwf | cbn; lia|].
+    intros x. cbn [amem c_hole c_data c_total]. unfold c_total. cbn [c_hole c_data]. split.
+    - intros H. left. pose proof (amem_lower 0 u x Hwf H). pose proof (Hub x H). lia.
+    - intros [H | []]. apply Hcov. lia. }
+  subst u. reflexivity.
+Qed.
+
+(* a fragment of key [k], piece of [P], processed when its slot is available as slot [i] of
+   [s1] (already claimed): delivery of [P], or the slot accumulates the merged union *)
+Lemma k_fragment_after_get k P n timeout now s s1 i f u tot texp :
+  set_ok k P s1 -> unique_kslot k s1 i ->
+  pas_get s (fi_key f) (now + timeout) = Some (i, s1) ->
+  pa_asm (nth i s1 pa_new) = u -> pa_total (nth i s1 pa_new) = tot ->
+  pa_expires (nth i s1 pa_new) = texp ->
+  fi_key f = k -> piece P f -> (fi_mf f || negb (fi_offset f =? 0)) = true ->
+  Z.of_nat (length (asm_add_unb u (fi_offset f) (zlen (fi_payload f)))) <= n ->
+  let '(s', r) := rs_process_ipv4 n timeout now s f in
+  r = Some P \/
+  (r = None /\
+   kstate k P texp s' (asm_add_unb u (fi_offset f) (zlen (fi_payload f)))
+          (if fi_mf f then tot else Some (zlen P))).
+Proof.
+  intros Hs1 Hun Hget Hu Htot Hexp Hk Hpc Hfrag Hfit.
+  unfold rs_process_ipv4. rewrite Hfrag, Hget.
+  pose proof Hun as (Hi & Hkey & Huniq).
+  set (p := nth i s1 pa_new) in *.
+  assert (Hok : slot_ok P p) by (apply (Forall_nth_pa _ s1 i Hs1 Hi); exact Hkey).
+  pose proof Hpc as (Ho & Hfitp & Hd & Hlast).
+  (* total size *)
+  assert (Hst : exists p1,
+    (if negb (fi_mf f) then pa_set_total_size p (zlen (fi_payload f) + fi_offset f) else Some p) = Some p1 /\
+    slot_ok P p1 /\ pa_key p1 = Some k /\ pa_asm p1 = u /\
+    pa_total p1 = (if fi_mf f then tot else Some (zlen P)) /\ pa_expires p1 = texp).
+  { destruct (fi_mf f) eqn:Hmf; cbn [negb].
+    - exists p. split; [reflexivity|]. split; [exact Hok|]. split; [exact Hkey|]. split; [exact Hu|]. split; [exact Htot | exact Hexp].
+    - specialize (Hlast eq_refl).
+      replace (zlen (fi_payload f) + fi_offset f) with (zlen P) by lia.
+      destruct (set_total_some P p Hok) as (p1 & Hp1). exists p1. split; [exact Hp1|].
+      destruct (set_total_ok P p (zlen P) p1 Hok eq_refl Hp1) as (H1 & H2 & H3 & H4 & H5).
+      split; [exact H1|]. split; [congruence|]. split; [congruence|]. split; [exact H4 | congruence]. }
+  destruct Hst as (p1 & -> & Hok1 & Hkey1 & Hasm1 & Htot1 & Hexp1).
+  pose proof (add_ok P n p1 f Hok1 Hpc) as Hadd. cbv zeta in Hadd.
+  destruct Hadd as (Hok2 & Hkey2 & Htot2 & Hexp2 & Hasm2).
+  set (p2 := pa_add n p1 (fi_payload f) (fi_offset f)) in *.
+  (* the insertion is accepted because the union fits *)
+  assert (Hasm2' : pa_asm p2 = asm_add_unb u (fi_offset f) (zlen (fi_payload f))).
+  { rewrite Hasm2, Hasm1.
+    pose proof (add_fits_ok n u (fi_offset f) (zlen (fi_payload f)) Hfit) as Hacc.
+    destruct (asm_add n u (fi_offset f) (zlen (fi_payload f))) as (l', ok) eqn:Hadd. cbn [fst snd] in *. subst ok.
+    destruct Hok1 as (Hwf1 & _). rewrite Hasm1 in Hwf1.
+    exact (proj1 (add_ok_spec n u _ _ l' Hwf1 Ho (zlen_nonneg _) Hadd)). }
+  destruct (assemble_ok P p2 Hok2) as [(Ha & Hnc) | (Ha & _)]; rewrite Ha; [right | left; reflexivity].
+  split; [reflexivity|]. split.
+  - apply update_Forall; [exact Hs1|]. split; [rewrite Hkey2, Hkey1; discriminate | intros _; exact Hok2].
+  - exists i. split; [apply unique_update_same; [exact Hun | congruence]|].
+    rewrite update_nth by exact Hi. repeat split; try assumption; congruence.
+Qed.
+
+Lemma nonfragment_delivers P f :
+  piece P f -> (fi_mf f || negb (fi_offset f =? 0)) = false -> fi_payload f = P.
+Proof.
+  intros (_ & _ & Hd & Hlast) Hfrag. apply orb_false_iff in Hfrag. destruct Hfrag as (Hmf & Ho).
+  specialize (Hlast Hmf). assert (Ho0 : fi_offset f = 0) by lia. rewrite Ho0 in *.
+  rewrite Hd. unfold f4_slice. cbn [Z.to_nat skipn].
+  replace (0 + zlen (fi_payload f)) with (zlen (fi_payload f)) in Hlast by lia.
+  rewrite Hlast. unfold zlen. rewrite Nat2Z.id. apply firstn_all.
+Qed.
+
+(* a packet of another key leaves the slot of [k] alone *)
+Lemma other_key_step k P n timeout now s f u tot texp :
+  kstate k P texp s u tot -> fi_key f <> k ->
+  kstate k P texp (fst (rs_process_ipv4 n timeout now s f)) u tot.
+Proof.
+  intros Hks Hne. pose proof Hks as (Hs & i & Hun & Ha & Ht & He & Hc).
+  pose proof (process_safe k P n timeout now s f Hs ltac:(intros; congruence)) as Hsafe.
+  unfold rs_process_ipv4 in *.
+  destruct (fi_mf f || negb (fi_offset f =? 0)); [|exact Hks].
+  destruct (pas_get s (fi_key f) (now + timeout)) as [(j, s1)|] eqn:Hget; [|exact Hks].
+  destruct (pas_get_spec _ _ _ _ _ Hget) as (Hj & Hcases). cbv zeta in Hcases.
+  pose proof Hun as (Hi & Hk & Hu).
+  assert (Hji : j <> i).
+  { intros ->. destruct Hcases as [(H & _) | (H & _)]; congruence. }
+  (* after claiming: still the same slot of k *)
+  assert (Hks1 : unique_kslot k s1 i /\ nth i s1 pa_new = nth i s pa_new /\ pa_key (nth j s1 pa_new) = Some (fi_key f) /\ length s1 = length s).
+  { destruct Hcases as [(H & ->) | (H & ->)]; [repeat split; assumption|].
+    split; [apply unique_update_other; [exact Hun | exact Hji | cbn; intros E; inversion E; congruence]|].
+    split; [apply update_nth_other; exact Hji|]. split; [rewrite update_nth by exact Hj; reflexivity | apply update_length]. }
+  destruct Hks1 as (Hun1 & Hsame & Hkeyj & Hlen).
+  set (p := nth j s1 pa_new) in *.
+  destruct (if negb (fi_mf f) then pa_set_total_size p (zlen (fi_payload f) + fi_offset f) else Some p) as [p1|] eqn:Hst.
+  2:{ cbn [fst] in *. split; [exact (proj1 Hsafe)|]. exists i. rewrite Hsame. repeat split; try assumption; apply Hun1. }
+  assert (Hkey1 : pa_key p1 = Some (fi_key f)).
+  { destruct (negb (fi_mf f)); [rewrite (set_total_key _ _ _ Hst); exact Hkeyj | inversion Hst; subst; exact Hkeyj]. }
+  set (p2 := pa_add n p1 (fi_payload f) (fi_offset f)) in *.
+  assert (Hkey2 : pa_key p2 = Some (fi_key f)) by exact Hkey1.
+  destruct (assemble_cases p2) as [Hasm | (d & Hasm)]; rewrite Hasm in *; cbn [fst] in *.
+  - split; [exact (proj1 Hsafe)|]. exists i.
+    split; [apply unique_update_other; [exact Hun1 | exact Hji | rewrite Hkey2; intros E; inversion E; congruence]|].
+    rewrite update_nth_other by exact Hji. rewrite Hsame. repeat split; assumption.
+  - split; [exact (proj1 Hsafe)|]. exists i.
+    split; [apply unique_update_other; [exact Hun1 | exact Hji | cbn; discriminate]|].
+    rewrite update_nth_other by exact Hji. rewrite Hsame. repeat split; assumption.
+Qed.
+
+Lemma gaps_fit_k n k u t f rest :
+  fi_key f = k -> gaps_fit n k u ((t, f) :: rest) ->
+  Z.of_nat (length (asm_add_unb u (fi_offset f) (zlen (fi_payload f)))) <= n /\
+  gaps_fit n k (asm_add_unb u (fi_offset f) (zlen (fi_payload f))) rest.
+Proof.
+  intros Hk H. cbn [gaps_fit] in H. rewrite (proj2 (fkey_eqb_eq _ _) Hk) in H. exact H.
+Qed.
+
+Lemma gaps_fit_other n k u t f rest :
+  fi_key f <> k -> gaps_fit n k u ((t, f) :: rest) -> gaps_fit n k u rest.
+Proof.
+  intros Hk H. cbn [gaps_fit] in H. destruct (fkey_eqb (fi_key f) k) eqn:E; [|exact H].
+  apply fkey_eqb_eq in E. congruence.
+Qed.
+
+(* main induction: with the slot of [k] holding the accumulated union and the rest of the
+   history completing the datagram within the lifetime of the slot, [P] is delivered *)
+Lemma live_ind k P n timeout texp : 0 < zlen P -> forall arr s u tot,
+  kstate k P texp s u tot ->
+  Forall (fun tf => fi_key (snd tf) = k -> piece P (snd tf)) arr ->
+  Forall (fun tf => fst tf <= texp) arr ->
+  gaps_fit n k u arr ->
+  (forall x, 0 <= x < zlen P ->
+     amem 0 u x \/ Exists (fun tf => fi_key (snd tf) = k /\ covers (snd tf) x) arr) ->
+  (tot = Some (zlen P) \/ Exists (fun tf => fi_key (snd tf) = k /\ fi_mf (snd tf) = false) arr) ->
+  In (Some P) (snd (rs_run n timeout s arr)).
+Proof.
+  intros HP. induction arr as [|(t, f) rest IH]; intros s u tot Hks Hpcs Htimes Hgaps Hcov Hlast.
+  - (* everything has arrived: the slot would be complete *)
+    exfalso. destruct Hks as (Hs & i & (Hi & Hk & _) & Ha & Ht & _ & Hc).
+    pose proof (Forall_nth_pa _ s i Hs Hi) as (_ & Hok). specialize (Hok Hk).
+    destruct Hok as (Hwf & Hb & _).
+    destruct Hlast as [Hlast | Hlast]; [|inversion Hlast].
+    unfold pa_is_complete in Hc. rewrite Ht, Hlast in Hc.
+    rewrite Ha in *. rewrite (full_cover_complete P u HP Hwf) in Hc; [lia | intros x Hx; apply (Hb x Hx)|].
+    intros x Hx. destruct (Hcov x Hx) as [H | H]; [exact H | inversion H].
+  - cbn [rs_run]. inversion Hpcs as [|? ? Hpc Hpcs']; subst. inversion Htimes as [|? ? Ht Htimes']; subst.
+    cbn [fst snd] in Hpc, Ht.
+    pose proof (kstate_remove_expired k P texp s u tot t Hks Ht) as Hks_e.
+    unfold rs_poll. set (se := pas_remove_expired s t) in *.
+    destruct (fkey_eqb (fi_key f) k) eqn:Hkk.
+    + apply fkey_eqb_eq in Hkk. specialize (Hpc Hkk).
+      destruct (gaps_fit_k n k u t f rest Hkk Hgaps) as (Hfit & Hgaps').
+      destruct (fi_mf f || negb (fi_offset f =? 0)) eqn:Hfrag.
+      * pose proof Hks_e as (Hse & i & Hun & Ha & Htot & Hexp & _).
+        pose proof (get_found k se (t + timeout) i Hun) as Hget. rewrite <- Hkk in Hget at 1.
+        pose proof (k_fragment_after_get k P n timeout t se se i f u tot texp Hse Hun Hget Ha Htot Hexp Hkk Hpc Hfrag Hfit) as Hstep.
+        destruct (rs_process_ipv4 n timeout t se f) as (s1, r).
+        destruct (rs_run n timeout s1 rest) as (s2, rs) eqn:Hrun. cbn [snd].
+        destruct Hstep as [-> | (-> & Hks1)]; [left; reflexivity|]. right.
+        specialize (IH s1 _ _ Hks1 Hpcs' Htimes' Hgaps'). rewrite Hrun in IH. cbn [snd] in IH. apply IH.
+        -- intros x Hx.
+           pose proof Hks as (Hs0 & i0 & (Hi0 & Hk0 & _) & Ha0 & _).
+           pose proof (Forall_nth_pa _ s i0 Hs0 Hi0) as (_ & Hok0). specialize (Hok0 Hk0).
+           destruct Hok0 as (Hwf0 & _). rewrite Ha0 in Hwf0.
+           destruct Hpc as (Ho & _).
+           destruct (add_unb_spec u (fi_offset f) (zlen (fi_payload f)) Hwf0 Ho (zlen_nonneg _)) as (_ & Hm).
+           destruct (Hcov x Hx) as [H | H].
+           ++ left. apply Hm. left. exact H.
+           ++ apply Exists_cons in H. destruct H as [(_ & Hc) | H'].
+              ** left. apply Hm. right. unfold covers in Hc. cbn [snd] in Hc. lia.
+              ** right. exact H'.
+        -- destruct (fi_mf f) eqn:Hmf; [|left; reflexivity].
+           destruct Hlast as [H | H]; [left; exact H|].
+           apply Exists_cons in H. destruct H as [(_ & Hc) | H']; [cbn [snd] in Hc; congruence | right; exact H'].
+      * (* not a fragment at all: handed on directly *)
+        unfold rs_process_ipv4. rewrite Hfrag.
+        destruct (rs_run n timeout se rest) as (s2, rs). cbn [snd]. left.
+        f_equal. apply nonfragment_delivers; assumption.
+    + assert (Hne : fi_key f <> k) by (intros H; apply fkey_eqb_eq in H; congruence).
+      pose proof (other_key_step k P n timeout t se f u tot texp Hks_e Hne) as Hks1.
+      destruct (rs_process_ipv4 n timeout t se f) as (s1, r). cbn [fst] in Hks1.
+      specialize (IH s1 u tot Hks1 Hpcs' Htimes' (gaps_fit_other n k u t f rest Hne Hgaps)).
+      destruct (rs_run n timeout s1 rest) as (s2, rs). cbn [snd] in *. right. apply IH.
+      * intros x Hx. destruct (Hcov x Hx) as [H | H]; [left; exact H|].
+        apply Exists_cons in H. destruct H as [(Hc & _) | H']; [cbn [snd] in Hc; congruence | right; exact H'].
+      * destruct Hlast as [H | H]; [left; exact H|].
+        apply Exists_cons in H. destruct H as [(Hc & _) | H']; [cbn [snd] in Hc; congruence | right; exact H'].
+Qed.
+
+(* C12 reassembly_delivers_if_gaps_fit.  The first packet of the datagram (key [k]) arrives at
+   [t0] when no slot is claimed for [k] and a free slot exists; every packet with key [k] is a
+   piece of [P]; the later ones arrive no later than the slot's expiry [t0 + timeout] (in any
+   order, with duplicates, with packets of other datagrams interleaved); the merged union of the
+   received ranges never needs more than [n] ranges; the pieces cover [P] and one of them has MF
+   clear.  Then [P] is delivered. *)
+Lemma c12_reassembly_delivers_if_gaps_fit k P n timeout s0 t0 f0 rest :
+  0 < zlen P -> 0 <= timeout ->
+  set_ok k P s0 ->
+  (forall j, (j < length s0)%nat -> pa_key (nth j s0 pa_new) <> Some k) ->
+  (exists j, (j < length s0)%nat /\ pa_key (nth j s0 pa_new) = None) ->
+  fi_key f0 = k ->
+  Forall (fun tf => fi_key (snd tf) = k -> piece P (snd tf)) ((t0, f0) :: rest) ->
+  Forall (fun tf => fst tf <= t0 + timeout) rest ->
+  gaps_fit n k [] ((t0, f0) :: rest) ->
+  (forall x, 0 <= x < zlen P ->
+     Exists (fun tf => fi_key (snd tf) = k /\ covers (snd tf) x) ((t0, f0) :: rest)) ->
+  Exists (fun tf => fi_key (snd tf) = k /\ fi_mf (snd tf) = false) ((t0, f0) :: rest) ->
+  In (Some P) (snd (rs_run n timeout s0 ((t0, f0) :: rest))).
+Proof.
+  intros HP Hto Hs0 Hnok Hfree Hk0 Hpcs Htimes Hgaps Hcov Hlast.
+  inversion Hpcs as [|? ? Hpc Hpcs']; subst. cbn [snd] in Hpc. specialize (Hpc eq_refl).
+  cbn [rs_run]. unfold rs_poll. set (se := pas_remove_expired s0 t0).
+  assert (Hse : set_ok (fi_key f0) P se) by (apply remove_expired_ok; exact Hs0).
+  assert (Hlen : length se = length s0) by (unfold se, pas_remove_expired; apply map_length).
+  assert (Hnok_e : forall j, (j < length se)%nat -> pa_key (nth j se pa_new) <> Some (fi_key f0)).
+  { intros j Hj. unfold se. rewrite remove_expired_nth. cbv beta.
+    destruct (negb (pa_is_free (nth j s0 pa_new)) && (pa_expires (nth j s0 pa_new) <? t0)); [cbn; discriminate|].
+    apply Hnok. lia. }
+  assert (Hfree_e : exists j, (j < length se)%nat /\ pa_key (nth j se pa_new) = None).
+  { destruct Hfree as (j & Hj & Hf). exists j. split; [lia|]. unfold se. rewrite remove_expired_nth. cbv beta.
+    apply is_free_iff in Hf. rewrite Hf. cbn [negb andb]. apply is_free_iff. exact Hf. }
+  destruct (gaps_fit_k n _ [] t0 f0 rest eq_refl Hgaps) as (Hfit & Hgaps').
+  destruct (fi_mf f0 || negb (fi_offset f0 =? 0)) eqn:Hfrag.
+  2:{ unfold rs_process_ipv4. rewrite Hfrag. destruct (rs_run n timeout se rest) as (s2, rs). cbn [snd]. left.
+      f_equal. apply nonfragment_delivers; assumption. }
+  destruct (get_alloc (fi_key f0) se (t0 + timeout) Hnok_e Hfree_e) as (i & Hi & Hki & Hget).
+  set (s1 := pas_update se i _) in Hget.
+  pose proof (Forall_nth_pa _ se i Hse Hi) as (Hfresh & _). destruct (Hfresh Hki) as (Hai & Hti).
+  assert (Hs1 : set_ok (fi_key f0) P s1).
+  { apply update_Forall; [exact Hse|]. split; [cbn; discriminate|]. intros _. rewrite Hai, Hti. apply slot_ok_fresh. }
+  assert (Hun : unique_kslot (fi_key f0) s1 i).
+  { unfold unique_kslot, s1. rewrite update_length. split; [exact Hi|].
+    split; [rewrite update_nth by exact Hi; reflexivity|].
+    intros j Hj Hkj. destruct (Nat.eq_dec j i) as [-> | Hne]; [reflexivity|].
+    rewrite update_nth_other in Hkj by congruence. exfalso. exact (Hnok_e j Hj Hkj). }
+  assert (Hn1 : nth i s1 pa_new = mkPa (Some (fi_key f0)) (pa_buffer (nth i se pa_new)) [] None (t0 + timeout)).
+  { unfold s1. rewrite update_nth by exact Hi. rewrite Hai, Hti. reflexivity. }
+  pose proof (k_fragment_after_get (fi_key f0) P n timeout t0 se s1 i f0 [] None (t0 + timeout)
+                Hs1 Hun Hget ltac:(rewrite Hn1; reflexivity) ltac:(rewrite Hn1; reflexivity)
+                ltac:(rewrite Hn1; reflexivity) eq_refl Hpc Hfrag Hfit) as Hstep.
+  destruct (rs_process_ipv4 n timeout t0 se f0) as (s', r).
+  destruct (rs_run n timeout s' rest) as (s2, rs) eqn:Hrun. cbn [snd].
+  destruct Hstep as [-> | (-> & Hks1)]; [left; reflexivity|]. right.
+  pose proof (live_ind (fi_key f0) P n timeout (t0 + timeout) HP rest s' _ _ Hks1 Hpcs' Htimes Hgaps') as Hlive.
+  rewrite Hrun in Hlive. cbn [snd] in Hlive. apply Hlive.
+  - intros x Hx. destruct Hpc as (Ho & _).
+    destruct (add_unb_spec [] (fi_offset f0) (zlen (fi_payload f0)) I Ho (zlen_nonneg _)) as (_ & Hm).
+    specialize (Hcov x Hx). apply Exists_cons in Hcov. destruct Hcov as [(_ & Hc) | H'].
+    + left. apply Hm. right. unfold covers in Hc. cbn [snd] in Hc. lia.
+    + right. exact H'.
+  - destruct (fi_mf f0) eqn:Hmf; [|left; reflexivity].
+    apply Exists_cons in Hlast. destruct Hlast as [(_ & Hc) | H']; [cbn [snd] in Hc; congruence | right; exact H'].
+Qed.
+
+(* the same on a freshly created interface with at least one reassembly slot *)
+Lemma c12_reassembly_delivers_fresh k P n timeout slots t0 f0 rest :
+  0 < zlen P -> 0 <= timeout -> (1 <= slots)%nat ->
+  fi_key f0 = k ->
+  Forall (fun tf => fi_key (snd tf) = k -> piece P (snd tf)) ((t0, f0) :: rest) ->
+  Forall (fun tf => fst tf <= t0 + timeout) rest ->
+  gaps_fit n k [] ((t0, f0) :: rest) ->
+  (forall x, 0 <= x < zlen P ->
+     Exists (fun tf => fi_key (snd tf) = k /\ covers (snd tf) x) ((t0, f0) :: rest)) ->
+  Exists (fun tf => fi_key (snd tf) = k /\ fi_mf (snd tf) = false) ((t0, f0) :: rest) ->
+  In (Some P) (snd (rs_run n timeout (pas_new slots) ((t0, f0) :: rest))).
+Proof.
+  intros HP Hto Hslots Hk. apply c12_reassembly_delivers_if_gaps_fit; try assumption.
+  - apply set_ok_new.
+  - intros j _.
+    assert (H : nth j (pas_new slots) pa_new = pa_new).
+    { unfold pas_new. clear. revert j. induction slots; intros [|j]; cbn; auto. }
+    rewrite H. cbn. discriminate.
+  - exists O. unfold pas_new. rewrite repeat_length. split; [lia|]. destruct slots; [lia | reflexivity].
+Qed.
+
+(* ================= sender and receiver together ================= *)
+
+Definition to_frag_in (k : fkey) (p : ip4pkt) : frag_in :=
+  mkFi k (p_offset p) (p_mf p) (p_payload p).
+
+(* the packets of a correct fragment train are pieces of the datagram *)
+Lemma train_pieces ip_mtu ident k P : forall frs off,
+  0 <= off <= zlen P ->
+  train_ok ip_mtu ident off frs (skipn (Z.to_nat off) P) ->
+  Forall (fun p => piece P (to_frag_in k p)) frs.
+Proof.
+  induction frs as [|p rest IH]; intros off Ho Ht; [constructor|].
+  assert (Hsk : zlen (skipn (Z.to_nat off) P) = zlen P - off) by (rewrite zlen_skipn; lia).
+  destruct rest as [|q rest'].
+  - apply train_ok_last in Ht. destruct Ht as (_ & Hoff & _ & Hmf & Hpay).
+    constructor; [|constructor]. unfold piece, to_frag_in. cbn [fi_offset fi_payload fi_mf].
+    rewrite Hoff, Hpay, Hsk. split; [lia|]. split; [lia|]. split; [|intros _; lia].
+    unfold f4_slice. symmetry. apply firstn_all2. rewrite skipn_length. unfold zlen. lia.
+  - apply train_ok_more in Ht. destruct Ht as (_ & Hoff & _ & Hmf & _ & Hpos & Hpay & Hrest).
+    assert (Hle : zlen (p_payload p) <= zlen P - off).
+    { rewrite <- Hsk. rewrite Hpay. unfold zlen. rewrite firstn_length. lia. }
+    constructor.
+    + unfold piece, to_frag_in. cbn [fi_offset fi_payload fi_mf]. rewrite Hoff.
+      split; [lia|]. split; [lia|]. split; [|rewrite Hmf; discriminate].
+      unfold f4_slice. rewrite Hpay at 1. f_equal. unfold zlen. lia.
+    + apply (IH (off + zlen (p_payload p))); [lia|].
+      replace (length (p_payload p)) with (Z.to_nat (zlen (p_payload p))) in Hrest by (unfold zlen; lia).
+      rewrite skipn_skipn_z in Hrest by (pose proof (zlen_nonneg (p_payload p)); lia). exact Hrest.
+Qed.
+
+(* the fragments the sender model puts on the wire for [P], received in ANY order with ANY
+   duplication (any list over the fragment set), at any times, interleaved with any packets
+   of other keys: nothing or exactly [P] *)
+Lemma c12_sender_receiver_exact_or_nothing ip_mtu ident fr0 P k n timeout slots arr :
+  f4_hdr + 8 <= ip_mtu -> fr_finished fr0 = true ->
+  ip_mtu < f4_hdr + zlen P -> f4_hdr + zlen P <= zlen (fr_buffer fr0) ->
+  (forall tf, In tf arr -> fi_key (snd tf) = k ->
+     exists p, In p (f4_fragment_datagram ip_mtu ident fr0 P) /\ snd tf = to_frag_in k p) ->
+  Forall2 (fun tf r => fi_key (snd tf) = k -> r = None \/ r = Some P)
+          arr (snd (rs_run n timeout (pas_new slots) arr)).
+Proof.
+  intros Hmtu Hfin Hbig Hfit Hin. apply c12_reassembly_exact_or_nothing.
+  destruct (fragment_datagram_train ip_mtu ident fr0 P Hmtu Hfin Hbig Hfit) as (Ht & _).
+  pose proof (train_pieces ip_mtu ident k P _ 0 ltac:(pose proof (zlen_nonneg P); lia) Ht) as Hp.
+  rewrite Forall_forall in Hp. apply Forall_forall. intros tf Htf Hk.
+  destruct (Hin tf Htf Hk) as (p & Hpin & ->). apply Hp. exact Hpin.
+Qed.
+
+(* ---------- non-vacuity ---------- *)
+
+(* 1208 bytes of IP payload (a 1200-byte UDP datagram) split by the sender model at MTU 576,
+   arriving as: last fragment, first, first again (duplicate), middle *)
+Definition c12_ex_payload : list Z := map (fun i => Z.of_nat i mod 251) (seq 0 1208).
+Definition c12_ex_key : fkey := (4242, 167772162, 167772161, 17).
+Definition c12_ex_frags : list frag_in :=
+  map (to_frag_in c12_ex_key)
+      (f4_fragment_datagram 576 4242 (fr_new cfg_FRAGMENTATION_BUFFER_SIZE) c12_ex_payload).
+Definition c12_ex_arrival : list (Z * frag_in) :=
+  match c12_ex_frags with
+  | [a; b; c] => [(0, c); (1, a); (2, a); (3, b)]
+  | _ => []
+  end.
+
+Lemma c12_example_permuted_duplicate :
+  map (fun f => (fi_offset f, fi_mf f, zlen (fi_payload f))) c12_ex_frags =
+    [(0, true, 552); (552, true, 552); (1104, false, 104)] /\
+  snd (rs_run cfg_ASSEMBLER_MAX_SEGMENT_COUNT 60000
+              (pas_new (Z.to_nat cfg_REASSEMBLY_BUFFER_COUNT)) c12_ex_arrival) =
+    [None; None; None; Some c12_ex_payload] /\
+  gaps_fit cfg_ASSEMBLER_MAX_SEGMENT_COUNT c12_ex_key [] c12_ex_arrival.
+Proof.
+  split; [vm_compute; reflexivity|]. split; [vm_compute; reflexivity|].
+  vm_compute. repeat split; discriminate.
+Qed.
+
+(* a slot that expired is reused: the same arrival with the middle fragment one tick after the
+   expiry of the slot delivers nothing *)
+Lemma c12_example_expired :
+  match c12_ex_frags with
+  | [a; b; c] =>
+      snd (rs_run cfg_ASSEMBLER_MAX_SEGMENT_COUNT 60000 (pas_new 1) [(0, c); (1, a); (60001, b)])
+        = [None; None; None] /\
+      snd (rs_run cfg_ASSEMBLER_MAX_SEGMENT_COUNT 60000 (pas_new 1) [(0, c); (1, a); (60000, b)])
+        = [None; None; Some c12_ex_payload]
+  | _ => False
+  end.
+Proof. vm_compute. split; reflexivity. Qed.
